@@ -2,6 +2,7 @@
     (established ID-multiplexed connection). Statements only; proofs in Proofs/Tdc.v. *)
 From Verif Require Import Base.Prelude Gen.Constants Model.Tdc Proofs.Tdc.
 From Verif Require Model.Lazy Proofs.Lazy.
+From Verif Require Model.Reuse Proofs.Reuse.
 Open Scope N_scope.
 
 (** In every reachable state the two counters are exact: [reserved] is the
@@ -111,3 +112,13 @@ Example c09_lazy_nonvacuous :
   | None => False
   end.
 Proof. vm_compute. repeat split; reflexivity. Qed.
+
+(** * The non-pipelined transport: one query per connection (reuse.go, Model.Reuse) *)
+Import Model.Reuse Proofs.Reuse.
+
+(** Under the one-reply-per-query assumption no connection of the non-pipelined
+    transport ever carries more than one written, unanswered query. *)
+Theorem c09_reuse_one_query_per_conn ls s n :
+  xrun xinit ls = Some s -> xenv xinit ls -> xout (conns s n) <= 1.
+Proof. exact (reuse_one_query_per_conn ls s n). Qed.
+Print Assumptions c09_reuse_one_query_per_conn.
